@@ -41,7 +41,8 @@ def generate(rng, tier, shard, nshards):
         if i % 2 == 0:
             texts = [list(p) for k in range(3) for p in itertools.product(cs, repeat=k)]
             rng.shuffle(texts)
-            yield rops.event("accepts", {"LG": LG, "cs": cs, "level": "char", "cands": texts[:8], "recursion": rec},
+            yield rops.event("accepts", {"LG": LG, "cs": cs, "level": "char", "cands": texts[:8], "recursion": rec,
+                                         "lm": rng.choice([None, "earley", "cky"])},
                              site="char_cfg as a grammar", feat=ft, timeout=120)
             bvals = sorted({b for c in cs for b in c.encode("utf-8")})
             bts = [list(p) for k in range(1, 4) for p in itertools.product(bvals, repeat=k)]
